@@ -90,6 +90,19 @@ def check_exp(w, rep, name, G, tier):
             rep.na("C02.inv", inst, "not decided: %s" % d)
 
 
+def form_verdict(w, rep, inst, got_raw, want_series, want_closed, where, msg):
+    """Compare first at the level of series atoms (same table entry by formula, same table, same argument), then on
+    closed forms.  A different table entry / plain-vs-squared table / argument is DIFFERENT at the first level."""
+    v, d = decide_mat(got_raw, want_series)
+    if v == EQUAL:
+        rep.ok("C02.form", inst, fact={"level": "series atoms"})
+        return
+    if v == DIFFERENT:
+        rep.fail("C02.form", inst, "%s (series coefficient, table or argument differs): %s" % (msg, d), where=where, fact={"difference": d})
+        return
+    verdict(rep, "C02.form", inst, closed(w, got_raw), want_closed, (), where, msg)
+
+
 def check_textbook(w, rep):
     """D2: parameter-level forms that define exp in each chart (Rodrigues / half-angle quaternion / tan(theta/4) MRP / SE(2) V matrix)."""
     so3 = w.G("so3")
@@ -100,18 +113,22 @@ def check_textbook(w, rep):
     with with_maxdeg(30):
         # DCM: Rodrigues
         D = w.G("SO3Dcm")
-        ok, R = guarded(w, rep, "C02.form", "SO3Dcm.exp", lambda: closed(w, w.call(w.call(D, "exp", e), "to_Matrix")))
+        ok, R = guarded(w, rep, "C02.form", "SO3Dcm.exp", lambda: w.call(w.call(D, "exp", e), "to_Matrix"))
         if ok:
-            want = cm.ew(cm.ew(eye(3), cm.ew(cm.scalar(F(w, "sin(x)/x", th)), X, cm.pmul), cm.padd),
-                         cm.ew(cm.scalar(F(w, "(1-cos(x))/x**2", th)), cm.matmul(X, X), cm.pmul), cm.padd)
-            verdict(rep, "C02.form", "SO3Dcm.exp = I + sin(t)/t X + (1-cos t)/t^2 X^2 (Rodrigues)", R, want, (), w.method_where(D, "exp")[:2], "DCM exponential is not Rodrigues' formula")
+            tsq = cm.sumsqr(x)
+            rod = lambda a, b: cm.ew(cm.ew(eye(3), cm.ew(a, X, cm.pmul), cm.padd), cm.ew(b, cm.matmul(X, X), cm.pmul), cm.padd)
+            want_s = rod(w.S("sin(x)/x", True, tsq), w.S("(1-cos(x))/x**2", True, tsq))
+            want_c = rod(cm.scalar(F(w, "sin(x)/x", th)), cm.scalar(F(w, "(1-cos(x))/x**2", th)))
+            form_verdict(w, rep, "SO3Dcm.exp = I + sin(t)/t X + (1-cos t)/t^2 X^2 (Rodrigues)", R, want_s, want_c, w.method_where(D, "exp")[:2], "DCM exponential is not Rodrigues' formula")
         # quaternion: (cos(t/2), sin(t/2)/t x)
         Q = w.G("SO3Quat")
-        ok, q = guarded(w, rep, "C02.form", "SO3Quat.exp", lambda: closed(w, w.param(w.call(Q, "exp", e))))
+        ok, q = guarded(w, rep, "C02.form", "SO3Quat.exp", lambda: w.param(w.call(Q, "exp", e)))
         if ok:
             h = th.scale(Fraction(1, 2))
-            want = cm.vertcat(cm.scalar(cm.un("cos", h)), cm.ew(cm.scalar(cm.pdiv(cm.un("sin", h), th)), x, cm.pmul))
-            verdict(rep, "C02.form", "SO3Quat.exp = (cos(t/2), sin(t/2)/t x)", q, want, (), w.method_where(Q, "exp")[:2], "quaternion exponential is not (cos(t/2), sin(t/2) n)")
+            q4 = cm.ew(cm.sumsqr(x), Fraction(1, 4), cm.pmul)
+            want_s = cm.vertcat(w.S("cos(x)", True, q4), cm.ew(cm.ew(w.S("sin(x)/x", True, q4), Fraction(1, 2), cm.pmul), x, cm.pmul))
+            want_c = cm.vertcat(cm.scalar(cm.un("cos", h)), cm.ew(cm.scalar(cm.pdiv(cm.un("sin", h), th)), x, cm.pmul))
+            form_verdict(w, rep, "SO3Quat.exp = (cos(t/2), sin(t/2)/t x)", q, want_s, want_c, w.method_where(Q, "exp")[:2], "quaternion exponential is not (cos(t/2), sin(t/2) n)")
         # MRP: tan(t/4)/t x  before the shadow switch
         Mr = w.G("SO3Mrp")
         ok, res = guarded(w, rep, "C02.form", "SO3Mrp.exp", lambda: capture_calls(w, "shadow_if_necessary", lambda: w.call(Mr, "exp", e)))
@@ -168,14 +185,14 @@ def check_shadow_invariance(w, rep):
             verdict(rep, "C02.flow", "SO3Mrp: to_Matrix(-r/|r|^2) = to_Matrix(r) (the shadow set is the same rotation)", ms[1], ms[0], (),
                     w.method_where(Mr, "to_Matrix")[:2], "the shadow MRP does not represent the same rotation")
     # and shadow_if_necessary is if_else(r.r > 1, -r/(r.r), r)
+    from .c03 import is_shadowed
     X, xp = w.fresh(Mr, "s")
     ok, _ = guarded(w, rep, "C02.flow", "shadow_if_necessary", lambda: w.call(Mr, "shadow_if_necessary", X))
     if ok:
-        got = w.param(X)
-        n2s = cm.sumsqr(xp)
-        want = cm.if_else(cm.rel("gt")(n2s, 1), cm.ew(cm.neg(xp), n2s, cm.pdiv), xp)
-        verdict(rep, "C02.flow", "shadow_if_necessary = if_else(r.r > 1, -r/(r.r), r)", got, want, (), w.method_where(Mr, "shadow_if_necessary")[:2],
-                "shadow switch is not the strict |r|^2 > 1 selection of -r/|r|^2")
+        good, why = is_shadowed(w.param(X))
+        same = good and all(c.single_atom().key[2] == p for c, p in zip(w.param(X).flat(), xp.flat()))
+        rep.check("C02.flow", "shadow_if_necessary = if_else(r.r > 1, -r/(r.r), r)", same, "shadow switch is not the strict |r|^2 > 1 selection of -r/|r|^2 (%s)" % (why or "else branch is not r"),
+                  where=w.method_where(Mr, "shadow_if_necessary")[:2])
 
 
 def check_rn_nilpotent(w, rep):
